@@ -390,6 +390,18 @@ def generate(ctx: Ctx) -> List[Case]:
             cases.append(run_recipe(ctx, {"ops": [ctor, *seq]}, f"e{i}"))
             i += 1
     EXHAUSTIVE[ctx.tier] = False  # exhaustive only over the reduced alphabet; random part is a sample
+    # equality between two independently built maps of similar size whose values are often None
+    # (absent name vs stored None; same names in other spellings; same size, different names)
+    for _ in range(1500 if ctx.thorough else 300):
+        rng = ctx.rng
+        val = lambda: None if rng.random() < 0.45 else rng.randrange(0, 3)  # noqa: E731
+        n = rng.randrange(0, 4)
+        pa = [[rng.choice(KEYS + ["zz"]), val()] for _ in range(n)]
+        pb = [[rng.choice(KEYS + ["zz"]), val()] for _ in range(max(0, n + rng.choice([0, 0, 0, 1, -1])))]
+        ka, kb = (rng.choice(["dict", "kwargs", "mixed", "lowerstr", "multidict"]) for _ in range(2))
+        ops = [["new", 0, ka, pa], ["new", 1, kb, pb], ["eq", 0, 1], ["ne", 0, 1], ["eq", 1, 0], ["eqd", 0, pb], ["eqd", 1, pa]]
+        cases.append(run_recipe(ctx, {"ops": ops}, f"q{i}"))
+        i += 1
     for _ in range(n_random):
         n = ctx.rng.randrange(1, 40 if ctx.thorough else 25)
         ops = [["new", 0, ctx.rng.choice(["dict", "kwargs", "mixed", "lowerstr", "multidict"]), rand_pairs(ctx.rng, ctx.rng.randrange(0, 6))]]
@@ -413,6 +425,7 @@ CORPUS = [
     {"ops": [["new", 0, "dict", [["a", 1]]], ["copy", 1, 0], ["replci", 0, 1], ["set", 1, "kEy", 9], ["del", 0, "key"], ["set", 0, "A", 2]]},
     {"ops": [["new", 0, "dict", [["a", 1]]], ["new", 1, "ci", 0], ["replci", 1, 0], ["set", 0, "x", 1], ["set", 1, "X", 2], ["dell", 0, "x"]]},
     {"ops": [["new", 0, "dict", [["Key", None]]]]},                                  # a stored None is present (in / len / iteration)
+    {"ops": [["new", 0, "dict", [["Key", None]]], ["new", 1, "dict", [["other", 1]]], ["eq", 0, 1], ["eq", 1, 0], ["ne", 0, 1], ["eqd", 0, [["other", 1]]], ["eqd", 1, [["Key", None]]]]},  # a stored None is not an absent name (seeded C16-m14)
     {"ops": [["new", 0, "dict", [["a", 1]]], ["new", 1, "dict", [["b", 2]]], ["replci", 0, 1], ["set", 1, "New", 3], ["del", 0, "b"], ["set", 0, "B", 4]]},  # sharing after replace(other)
     {"ops": [["new", 0, "dict", [["a", 1]]], ["new", 1, "dict", [["b", 2]]], ["replci", 0, 1], ["repl", 1, [["c", 5]]], ["set", 0, "x", 1]]},  # sharing ends when the other is rebound
     {"ops": [["new", 0, "dict", [["Key", 1], ["KEY", 2]]]]},                       # F16a
